@@ -1,5 +1,6 @@
 import QV.Base.BExp
 import QV.Base.Quirks
+import QV.Gen.Tables
 /-!
 # Model of calling one compiled function from another
 
@@ -132,10 +133,18 @@ def bindFunction (q : Quirks) (orders : List (List String)) (f : LogicFun) : Log
     ret := f.ret
     exps := lastN f.ret.bitvec.length (compressGo q [] (renameAll q f.name orders f.exps)) }
 
-/-- `Env.defs` with `bind_function`'s guard (`if self.know_type(deff[0]): return`) -/
+/-- the names `bind_function` refuses: a type the environment knows (a call of it is a typecast) or one of
+`RESERVED_FUNCTION_NAMES` (`QV.Gen.reservedFunctionNames`, read from env.py: ast2ast / `translate_expression` give
+a call of these names a meaning of their own before the definitions are looked at) -/
+def refusedName (types : List String) (n : String) : Bool :=
+  types.contains n || QV.Gen.reservedFunctionNames.contains n
+
+/-- `Env.defs` after `bind_function` with its guard
+(`if self.know_type(deff[0]) or deff[0] in RESERVED_FUNCTION_NAMES: raise Exception(...)`): a definition under a
+refused name is an error, every other definition is appended -/
 def envBind (q : Quirks) (types : List String) (defs : List LogicFun)
-    (orders : List (List String)) (f : LogicFun) : List LogicFun :=
-  if types.contains f.name then defs else defs ++ [bindFunction q orders f]
+    (orders : List (List String)) (f : LogicFun) : Except String (List LogicFun) :=
+  if refusedName types f.name then .error "Exception" else .ok (defs ++ [bindFunction q orders f])
 
 /-- `know_function`: exactly one definition of that name -/
 def knowFunction (defs : List LogicFun) (n : String) : Bool :=
@@ -143,6 +152,12 @@ def knowFunction (defs : List LogicFun) (n : String) : Bool :=
 
 /-- `getdef`: the first definition of that name -/
 def getDef (defs : List LogicFun) (n : String) : Option LogicFun := defs.find? (fun d => d.name == n)
+
+/-- what a call of the name `n` reaches (the guard of the *Known function* branch, `env.know_function(n)`, then
+`env.getdef(n)`): the definition of that name when the environment holds exactly one, nothing otherwise – a name
+bound twice is not resolved at all (the caller is refused with `UnknownSymbolException`) -/
+def resolve (defs : List LogicFun) (n : String) : Option LogicFun :=
+  if knowFunction defs n then getDef defs n else none
 
 /-! ## the call site -/
 
